@@ -98,13 +98,21 @@ with contextlib.redirect_stdout(sink):
     elif mode == 'single_half':
         a = mk(); a.TDS.config.tf = tf; a.TDS.config.tstep = a.TDS.config.tstep / 2; ok = a.TDS.run()
     elif mode == 'split':
-        a = mk(); a.TDS.config.tf = cut; ok1 = a.TDS.run(); save_ss(path, a); a.TDS.config.tf = tf; ok = a.TDS.run()
+        a = mk(); a.TDS.config.tf = cut; ok1 = a.TDS.run()
+        _peek = (a.dae.ts.xy.shape, a.dae.ts.txyz.shape)      # the user looks at the trajectory of the first part
+        save_ss(path, a); a.TDS.config.tf = tf; ok = a.TDS.run()
     elif mode == 'load':
         a = load_ss(path); a.TDS.config.tf = tf; ok = a.TDS.run()
     elif mode == 'reset':
         a = mk(); x0 = a.dae.y.copy(); a.reset(); a.PFlow.run(); ok = bool(np.array_equal(x0, a.dae.y)); tf = float(a.dae.t)
 ts = [float(x) for x in a.dae.ts.t] if mode != 'reset' else []
-print(json.dumps({'ok': bool(ok), 't': float(a.dae.t), 'x': [float(v) for v in a.dae.x], 'y': [float(v) for v in a.dae.y],
+traj = {}
+if mode != 'reset':
+    xy = np.array(a.dae.ts.xy); xx = np.array(a.dae.ts.x); yy = np.array(a.dae.ts.y)
+    traj = {'rows_xy': int(xy.shape[0]), 'rows_x': int(xx.shape[0]), 'rows_y': int(yy.shape[0]),
+            'last_is_state': bool(xy.shape[0] > 0 and xy.shape[1] == a.dae.n + a.dae.m and
+                                  np.array_equal(xy[-1], np.concatenate([a.dae.x, a.dae.y])))}
+print(json.dumps({'traj': traj, 'ok': bool(ok), 't': float(a.dae.t), 'x': [float(v) for v in a.dae.x], 'y': [float(v) for v in a.dae.y],
                   'nts': len(ts), 'inc': all(p < q for p, q in zip(ts, ts[1:])), 'cut_in_ts': cut in ts,
                   'toggles': sink.getvalue().count('<Toggle') + sink.getvalue().count('<Fault')}))
 '''
@@ -187,6 +195,13 @@ def real_runs(ctx, ncuts):
             if sp['toggles'] != single['toggles'] or ld['toggles'] + 0 > single['toggles']:
                 ctx.oracle_fail('real-event-count-differs', 'events executed: single %d, split %d, after snapshot %d'
                                 % (single['toggles'], sp['toggles'], ld['toggles']), cse)
+            for who, r_ in (('split run', sp), ('snapshot-restored run', ld)):
+                tr = r_.get('traj') or {}
+                if tr and not (tr['rows_xy'] == tr['rows_x'] == tr['rows_y'] == r_['nts'] and tr['last_is_state']):
+                    ctx.oracle_fail('trajectory-rows-differ-from-time-axis',
+                                    '%s: %d time stamps, but the stored trajectory has %d / %d / %d rows (xy / x / y); last row is the final '
+                                    'state: %s' % (who, r_['nts'], tr['rows_xy'], tr['rows_x'], tr['rows_y'], tr['last_is_state']), cse)
+                    break
             if sp['nts'] != ld['nts']:
                 ctx.oracle_fail('snapshot-axis-differs', 'time axis length differs after snapshot restore', cse)
     rs = res[jobs[-1]]
